@@ -43,7 +43,7 @@ func main() {
 
 type stats struct {
 	Mutex, Go, Os, Pipe int
-	Files         []string
+	Files               []string
 }
 
 func run(repo, out, src string) error {
